@@ -37,7 +37,7 @@ REQUIRED_COUNTERS = [
     "c15.class.construct", "c15.construct.strided-buffer", "c15.class.alias", "c15.class.getitem1", "c15.class.getitem2",
     "c15.class.setitem1", "c15.class.setitem2", "c15.class.binop", "c15.class.inplace",
     "c15.class.unary", "c15.class.size", "c15.class.query", "c15.class.elementwise", "c15.class.overflow",
-    "c15.class.mutate-result", "c15.construct.from-buffer-with-earlier-export-alive", "c15.self-index.both", "c15.overflow.index2-beyond-int32", "c15.overflow.unary-beyond-int32", "c15.overflow.size-beyond-int32", "c15.overflow.rem-minus-one", "c15.overflow.numbers-only-mul", "c15.overflow.numbers-only-emax",
+    "c15.class.mutate-result", "c15.query.bool-special-contents", "c15.construct.from-buffer-with-earlier-export-alive", "c15.self-index.both", "c15.overflow.index2-beyond-int32", "c15.overflow.unary-beyond-int32", "c15.overflow.size-beyond-int32", "c15.overflow.rem-minus-one", "c15.overflow.numbers-only-mul", "c15.overflow.numbers-only-emax",
     "c15.index.int", "c15.index.negint", "c15.index.int-oor", "c15.index.slice", "c15.index.list",
     "c15.index.list-neg", "c15.index.list-oor", "c15.index.list-empty", "c15.index.imat", "c15.index.imat-neg",
     "c15.index.imat-oor",
@@ -506,6 +506,13 @@ def run(ctx):
                 src = {"len": "len(%s)", "bool": "bool(%s)", "max": "bmax(%s)", "min": "bmin(%s)", "sum": "bsum(%s)",
                        "list": "list(%s)", "iter": "[t for t in %s]", "tuple": "tuple(%s)", "size": "%s.size",
                        "typecode": "%s.typecode"}[q] % p
+            if q == "bool" and rng.random() < 0.5:
+                # truth value of special contents: all zero, a single nonzero entry, purely imaginary entries, -0.0
+                special = rng.choice(["matrix([0j, %dj, 0j])" % rng.choice([2, -3]), "matrix([0.0, -0.0])", "matrix([0j, -0j])",
+                                      "matrix([0, 0, %d])" % rng.choice([1, -1]), "matrix([0.0, 0.0, 1e-300])", "matrix(%dj)" % rng.choice([1, -2]),
+                                      "matrix([[0j, 0j], [0j, 1e-200j]])"])
+                ctx.count("c15.query.bool-special-contents")
+                src = "bool(%s)" % special
             do("_ = " + src, "query:" + q, "_")
 
         def g_elementwise():
